@@ -1,10 +1,20 @@
-use pdfmon::refimpl::codec::*;
-use pdf::enc::*;
+use pdfmon::mkpdf::*;
+use pdfmon::with_file;
+use pdfmon::doc::*;
 fn main(){
-    let data=b"hello hello hello hello".to_vec();
-    for early in [0u32,1]{
-        let enc=lzw_encode_with(&data,early,4094,true,&[]);
-        let p=LZWFlateParams{early_change:early as i32,..Default::default()};
-        println!("early={} -> {:?}",early,decode(&enc,&StreamFilter::LZWDecode(p)).map(|v|String::from_utf8_lossy(&v).to_string()));
+    let bytes = simple_doc(&skeleton(3), 1, vec![]);
+    println!("{}", String::from_utf8_lossy(&bytes));
+    for cfg in CFGS {
+        let n = with_file!(bytes.clone(), cfg, b"", |f| f.map(|f| (f.num_pages(), f.get_page(2).map(|p| p.media_box().map(|r| r.right)))));
+        println!("{} -> {:?}", cfg.name(), n);
     }
+    // xref stream + objstm
+    let mut w = W::new(b"junk junk\n", "1.5");
+    w.free(0,0,65535);
+    let sk = skeleton(2);
+    w.obj(1,0,&sk[0].1);
+    w.objstm(5, &[(2, sk[1].1.clone()), (3, sk[2].1.clone()), (4, sk[3].1.clone())], b"\n", 0, &flate_filter);
+    w.xref_stream(6, vec![(b"Root".to_vec(), rf(1))], 7, &[], &flate_filter);
+    let n = with_file!(w.buf.clone(), CFGS[0], b"", |f| f.map(|f| (f.num_pages(), f.get_page(1).map(|p| p.media_box().map(|r| r.right)))));
+    println!("xrefstream -> {:?}", n);
 }
